@@ -371,19 +371,44 @@ pub fn emit_entry(s: &Spec) -> String {
     } else {
         "None".to_string()
     };
+    // structural comparison of the plain magic fields with the input's parts
+    let mut conds: Vec<String> = vec![];
+    for m in &s.magic {
+        if m.wrap != "plain" {
+            continue;
+        }
+        let c = match (s.tr, m.name.as_str()) {
+            (Trait::FromDeriveInput, "ident") | (Trait::FromVariant, "ident") | (Trait::FromTypeParam, "ident") => "v.ident == x.ident".to_string(),
+            (Trait::FromField, "ident") => "v.ident == x.ident".to_string(),
+            (Trait::FromDeriveInput, "vis") | (Trait::FromField, "vis") => "v.vis == x.vis".to_string(),
+            (Trait::FromDeriveInput, "generics") => "v.generics == x.generics".to_string(),
+            (Trait::FromField, "ty") => "v.ty == x.ty".to_string(),
+            (Trait::FromVariant, "discriminant") => "v.discriminant == x.discriminant.as_ref().map(|d| d.1.clone())".to_string(),
+            (Trait::FromTypeParam, "bounds") => "v.bounds == x.bounds.iter().cloned().collect::<Vec<_>>()".to_string(),
+            (Trait::FromTypeParam, "default") => "v.default == x.default".to_string(),
+            _ => continue,
+        };
+        conds.push(format!("if !({}) {{ bad.push({:?}); }}", c, m.name));
+    }
+    let exact = if conds.is_empty() || s.tr == Trait::FromMeta || s.tr == Trait::FromAttributes {
+        "None".to_string()
+    } else {
+        format!("match i {{ {pat} => match {call} {{ Ok(v) => {{ let mut bad: Vec<&'static str> = vec![]; {conds} Some(bad) }}, Err(_) => None }}, _ => None }}", pat = pat, call = call, conds = conds.join(" "))
+    };
     format!(
-        "fn call_{id}(i: &::vl3::In) -> Option<::darling::Result<::vmodel::val::Val>> {{ match i {{ {pat} => Some({call}.map(|v| ::vmodel::val::Observe::observe(&v))), _ => None }} }}\nfn none_{id}() -> Option<::vmodel::val::Val> {{ {none} }}\n",
+        "fn call_{id}(i: &::vl3::In) -> Option<::darling::Result<::vmodel::val::Val>> {{ match i {{ {pat} => Some({call}.map(|v| ::vmodel::val::Observe::observe(&v))), _ => None }} }}\nfn none_{id}() -> Option<::vmodel::val::Val> {{ {none} }}\nfn exact_{id}(i: &::vl3::In) -> Option<Vec<&'static str>> {{ {exact} }}\n",
         id = s.id,
         pat = pat,
         call = call,
-        none = none
+        none = none,
+        exact = exact
     )
 }
 
 pub fn emit_registry(specs: &[Spec]) -> String {
     let mut s = String::from("pub fn registry() -> Vec<::vl3::Entry> { vec![\n");
     for sp in specs {
-        s.push_str(&format!("    ::vl3::Entry {{ id: {id}, call: call_{id}, from_none: none_{id} }},\n", id = sp.id));
+        s.push_str(&format!("    ::vl3::Entry {{ id: {id}, call: call_{id}, from_none: none_{id}, exact: exact_{id} }},\n", id = sp.id));
     }
     s.push_str("] }\n");
     s
